@@ -185,11 +185,13 @@ theorem rename_var {α} (names : List String) (pre suf n : String) :
   unfold Formula.rename renameName
   split <;> rfl
 
-/-- **Known finding F-C19-1 (code before the proposed repair).**  A `Variable` object that occurs
-twice in a formula is visited twice by `rename_elementary`; when the table of alternatives has
-both columns `a` and `a_0` the second visit renames it again: the combined variable of index 0
-reads column `a_0_0` (attribute `a_0` of the alternative) instead of `a_0` (attribute `a`).  The
-model above (`Formula.rename`, one renaming per occurrence) is the repaired behaviour. -/
+/-- **Witness about the OLD shape of the code only (F-C19-1, fixed in /repo by 883442d).**  Before
+that commit `rename_elementary` visited a `Variable` object once per occurrence (`renameVisited`
+with 2 visits); with columns `a` and `a_0` in the table of alternatives the second visit renamed it
+again, so the combined variable of index 0 read column `a_0_0` (attribute `a_0`) instead of `a_0`
+(attribute `a`).  The current code processes each distinct leaf once, which is what the model
+(`Formula.rename`, one renaming per occurrence, `rename_var`) states; `renameVisited` is not a model
+of the current code and this theorem is kept only to document why one visit per object matters. -/
 theorem shared_object_renamed_twice :
     renameVisited ["a", "a_0"] "" "_0" 2 "a" = "a_0_0" ∧
     renameVisited ["a", "a_0"] "" "_0" 1 "a" = "a_0" := by decide
